@@ -54,3 +54,33 @@ Fixpoint run_hist_ok (o : opts) (s : st) (evs : list iter_ev) : bool :=
 
 Definition hist_ok (k0 ks0 : Z) (o : opts) (l : list init_call) (fsd0 : Q) (evs : list iter_ev) : bool :=
   negb (o_det o) || run_hist_ok o (init_phase k0 ks0 o l fsd0) evs.
+
+(* ---- the WINDOWS of the two history tests, all noise modes: the code computes the stall improvement exactly in the iterations
+   with poll_iteration > tol_stall_iters - 1 (tol_stall_iters AFTER the doubling for stochastic targets), and the acceleration
+   improvement exactly in failed polls with accelerate_mesh on and iter > accelerate_mesh_steps.  [Some _] = the code computed it. *)
+Definition is_some {A : Type} (x : option A) : bool := match x with Some _ => true | None => false end.
+
+Definition iter_window_ok (o : opts) (s : st) (ev : iter_ev) : bool :=
+  if fin s || exn s then true else
+  let s0 := lock_ks o s in
+  let s1 := if want_search o s0 then search_phase o (ie_SI ev) (ie_search ev) s0 else s0 in
+  if exn s1 then true else
+  let '(s2, dopoll) := poll_decision o s1 in
+  let s3 := if dopoll then poll_phase o (ie_SI ev) (ie_poll ev) s2 else s2 in
+  if exn s3 then true else
+  let okP :=
+    if dopoll then
+      let a := poll_loop o (pe_ncand (ie_poll ev)) (pe_evals (ie_poll ev)) (mkP s2 0 (cur s2) 0) in
+      let good := qltb (ie_SI ev) (p_best a) in
+      Bool.eqb (is_some (pe_hist (ie_poll ev))) (negb good && o_accel o && (o_accel_steps o <? piter s3))
+    else true in
+  okP && Bool.eqb (is_some (ie_stall ev)) (o_stall o - 1 <? piter s3).
+
+Fixpoint run_window_ok (o : opts) (s : st) (evs : list iter_ev) : bool :=
+  match evs with
+  | [] => true
+  | e :: r => iter_window_ok o s e && run_window_ok o (step_iter o s e) r
+  end.
+
+Definition window_ok (k0 ks0 : Z) (o : opts) (l : list init_call) (fsd0 : Q) (evs : list iter_ev) : bool :=
+  run_window_ok o (init_phase k0 ks0 o l fsd0) evs.
